@@ -137,7 +137,7 @@ def abstract_in(s):
     """inbound side (lean/Mqtt5V/Model/TraceIn.lean):
       U:<sp>  new connection         P:<qos>:<pid>:<msg>  PUBLISH dispatched        L:<pid>:<good>  PUBREL dispatched
       W / p:A|R|C:<pid> / p:o / K / F   a write, its acknowledgements, its end       d:<qos>:<pid>:<msg>  message handed to async_receive
-      X  cancel()/disconnect closed the client"""
+      X  cancel()/disconnect closed the client      S  a subscription succeeded      d:9:0:0  session_expired handed to async_receive"""
     intern = Interner()
     toks = []
     first = {}          # message identity -> (qos, pid) of its first PUBLISH
@@ -175,6 +175,12 @@ def abstract_in(s):
                     toks.append(f"p:{code}:{d['pid']}" if code else "p:o")
             elif es[0] == "close":
                 toks.append("X")
+            elif es[0] == "recvd" and es[2] == "client:102":
+                toks.append("d:9:0:0")          # session_expired handed to the application
+            elif es[0] == "done" and " ok " in e + " " and "rcs=" in e:
+                o = s.ops.get(es[1])
+                rcs = e.split("rcs=")[1].split()[0]
+                if o is not None and o.kind == "sub" and rcs != "-" and any(int(x) < 0x80 for x in rcs.split(",")): toks.append("S")    # subscriptions_present(true)
             elif es[0] == "recvd" and es[2] == "ok":
                 topic = bytes.fromhex(es[3]) if es[3] != "-" else b""; payload = bytes.fromhex(es[4]) if es[4] != "-" else b""
                 key = ("msg", topic, payload, repr(sorted(M.plist_parse(es[5]).items(), key=repr)))
